@@ -8,7 +8,8 @@ EXPLANATION = ("(R1) type-check gating: Box::downcast reinterprets the pointer o
                "Hash, Hasher, Display/Debug/Pointer, Iterator, DoubleEndedIterator, ExactSizeIterator, Future, ...) calls the same-named method of the same trait on the boxed "
                "value with the parameters in order; (R3) Box::new_in goes through the arena's allocation API, Box code never calls an arena deallocation/reallocation entry, Drop "
                "for Box is drop_in_place of the pointee; (R4) a slice/pointer handed out by into_boxed_slice / into_bump_slice / into_raw is the buffer pointer as it is when the "
-               "container is forgotten (no reallocation between reading the pointer and giving up ownership).")
+               "container is forgotten (no reallocation between reading the pointer and giving up ownership)."
+               ' (R2 also) the forwarded result is returned unchanged; (R3) Drop for Box destroys the pointee on every path; (R5) into_raw / from_raw / leak / into_inner / new_in / pin_in transfer the value exactly once.')
 RULE = "rule instance = (rule, method); distinct by (rule, method)"
 
 FORWARD_TRAITS = ('cmp::PartialEq', 'cmp::PartialOrd', 'cmp::Ord', 'hash::Hash', 'hash::Hasher', 'fmt::Display', 'fmt::Debug', 'iter::traits::iterator::Iterator',
